@@ -49,6 +49,7 @@ inductive Ev where
   | ctx (id : Nat) (live : Bool)    -- T.Context() returned context `id`; live or cancelled
   | cancel (id : Nat)               -- context `id` cancelled by T.cleanup
   | cleanupBegin | cleanupEnd
+  | signal                          -- a non-fatal failure was signalled (T.Error/Errorf/Fail, also Fatal*)
   | innerBegin | innerEnd
 deriving DecidableEq, Repr
 
@@ -137,7 +138,7 @@ deriving Inhabited
 def CTree.run : CTree → TS → COut
   | .done, ts => ⟨ts, [], none⟩
   | .emit id k, ts => let o := k.run ts; { o with evs := .user id :: o.evs }
-  | .errorf m k, ts => k.run { ts with failed := some m }
+  | .errorf m k, ts => let o := k.run { ts with failed := some m }; { o with evs := .signal :: o.evs }
   | .throw e, ts => ⟨ts, [], some e⟩
   | .reg c k, ts => k.run { ts with cleanups := c :: ts.cleanups }
   | .ctx k, ts =>
@@ -194,7 +195,7 @@ def Prog.run : Prog → Src → TS → Out
       | .error (.invalid _) =>
           ((k none (o.ts.draws != ts.draws)).run o.src o.ts).after o.used o.kept o.toks o.evs o.overran
       | .error _ => o
-  | .errorf m k, src, ts => k.run src { ts with failed := some m }
+  | .errorf m k, src, ts => (k.run src { ts with failed := some m }).after [] [] [] [.signal]
   | .failOnError site k, src, ts =>
       match ts.failed with
       | some m => .ofRes (.error (.stop m site)) src ts
